@@ -295,14 +295,14 @@ theorem positional_counterexample :
             positiontup := some ["id".toList, "id".toList], nextNumericPos := 0 } := by
   decide +kernel
 
-/-- finding `escaped-bindname-literal-execute-keyerror`: a literal-execute parameter
-    whose name needs escaping: `parameters.pop(escaped_name)` on a dict keyed by the
-    unescaped name -/
-theorem literal_execute_escaped_counterexample :
+/-- former finding `literal-execute-escaped-name-keyerror` (fixed in /repo by 35f86e1:
+    `parameters.pop(name)` instead of `pop(escaped_name)`): a literal-execute parameter
+    whose name needs escaping is inlined and nothing is left to bind -/
+theorem literal_execute_escaped_name_inlined :
     initCompiled { pre := "SELECT __[POSTCOMPILE_a_b]".toList,
                    binds := [⟨"a.b".toList, .litExec, []⟩],
                    escaped := [("a.b".toList, "a_b".toList)], valuesBind := none }
-      .qmark [("a.b".toList, .one "7".toList)] = .error .keyError := by
+      .qmark [("a.b".toList, .one "7".toList)] = .ok ("SELECT 7".toList, .tuple []) := by
   decide +kernel
 
 /-- finding `escaped-bindname-collision` (named style): `a.b` and `a b` both escape to
